@@ -1,4 +1,5 @@
 #![recursion_limit = "1024"]
+#![cfg_attr(kani, feature(allocator_api))]
 
 mod async_rt;
 mod backend;
@@ -382,4 +383,12 @@ pub mod prelude {
     //! Re-exports important traits. Consider glob-importing.
 
     pub use crate::{Socket, SocketRecv, SocketSend, TryIntoEndpoint};
+}
+
+// Verification hook (guard: cfg(kani), set only by the Kani compiler): compiles the proof
+// harnesses kept outside this repository into the crate so they can reach private items.
+#[cfg(kani)]
+#[allow(unsafe_code, unused_imports, dead_code, clippy::all)]
+mod __verif_kani {
+    include!(env!("ZEROMQ_VERIF_KANI"));
 }
